@@ -481,6 +481,7 @@ func generate(p *Prog, prop string, cover bool) *RunResult {
 		goCaptureSweep(p, prop, rr)
 		orderedIterationSweep(p, prop, rr)
 		lockCopySweep(p, prop, rr)
+		coveredCallersSweep(p, prop, rr)
 	}
 	for _, n := range sortedKeys(p.CS.Externs) {
 		if xf := p.CS.Externs[n]; xf.Used {
